@@ -64,7 +64,7 @@ func Attribute(m Mismatch, running string) string {
 				return "C01" // an accepted revision of this kind lets an expiry pay out more than is locked
 			}
 			return "C07"
-		case has("!sum", "!samern", "!missedup", "!coll", "!capdown", "!validsum", "!missedsum", "!wrongleaf", "!wrongdata", "!short", "!missedhigh"):
+		case has("!sum", "!samern", "!missedup", "!coll", "!capdown", "!validsum", "!missedsum", "!wrongleaf", "!wrongdata", "!short", "!missedhigh", "!stalern"):
 			return "C07"
 		}
 	}
@@ -89,11 +89,10 @@ type RunOpts struct {
 // RunStats is what a run covered.
 type RunStats struct {
 	Behaviours, Steps, Accepted, Rejected, Reverts, Txs int
-	Tags                                               map[string]int
-	Foreign                                            map[string]int
-	TLCWall, GoWall                                    time.Duration
+	Tags                                                map[string]int
+	Foreign                                             map[string]int
+	TLCWall, GoWall                                     time.Duration
 }
-
 
 // Run lets TLC simulate behaviours of the configuration and replays each on the real code.
 func Run(c *vlib.Ctx, cfg LedgerConfig, o RunOpts) RunStats {
@@ -154,7 +153,6 @@ func Run(c *vlib.Ctx, cfg LedgerConfig, o RunOpts) RunStats {
 	}
 	return st
 }
-
 
 // runBehaviour replays one behaviour on a fresh chain, reporting mismatches as Run does.
 func runBehaviour(c *vlib.Ctx, p Params, cfgForPayload any, beh *Behaviour, o RunOpts, st *RunStats, mu *sync.Mutex) {
